@@ -129,6 +129,15 @@ def oracle(cmds, snaps):
     return None
 
 
+def run_late(ctx):
+    """a transfer checked in one working directory, a CWD, and only then the data connection"""
+    from props import late_common as LC
+
+    us = users()
+    return LC.run_family(ctx, "C04", LC.c04_plans(ctx, W_DIRS), lambda p: (us, [None], W_TREE, p, ["USER bob"]),
+                         lambda plan, recs: LC.c04_oracle(plan, recs, nearest))
+
+
 def run(ctx, compare=True):
     from props import c05
 
